@@ -578,7 +578,27 @@ fn attack(w: &mut World, actor: &str, tx: &Transaction, i: usize, sat: &WorldSat
                 && wit.len() >= 2
                 && wit[..wit.len() - 1] == orig_wit[..orig_wit.len() - 1]
                 && wit[wit.len() - 1] != orig_wit[orig_wit.len() - 1];
-            let how = if dup_leaf { "dup-leaf-control-block" } else { how };
+            // one key under two names in the script (parity prefixes of one x-only key in tapscript,
+            // compressed / uncompressed serialization before segwit): the duplicate-key rule compares
+            // key expressions, the script compares keys
+            let ids = &env.inputs[i].key_ids;
+            let same_key_two_names = ids.iter().enumerate().any(|(a, ka)| {
+                ids[..a].iter().any(|kb| {
+                    ka != kb
+                        && if kind == OutKind::TrScript {
+                            env.uni.keys[*ka].xonly == env.uni.keys[*kb].xonly
+                        } else {
+                            env.uni.keys[*ka].public.inner == env.uni.keys[*kb].public.inner
+                        }
+                })
+            });
+            let how = if dup_leaf {
+                "dup-leaf-control-block"
+            } else if same_key_two_names {
+                "same-key-two-names"
+            } else {
+                how
+            };
             raise_class(
                 w,
                 "C03",
